@@ -261,6 +261,26 @@ def any_pdu_any_state(x: int) -> bool:
     return ok
 
 
+@cond(bounds='a peer that does not wait: n complete C-ECHO-RQ messages (n symbolic 1..48) pipelined in one segment while the '
+             'local user reads nothing, followed by a PDU of unknown type and the close; state 6 (acceptor) - the loop '
+             'must take every message, answer the invalid PDU with A-ABORT and end idle with the connection closed '
+             '(an indication queue that blocks the loop when full would stop all of that)', timeout=240)
+def pipelined_flood(n: int) -> bool:
+    """
+    pre: 1 <= n <= 48
+    post: _
+    """
+    from vt import sim
+    n = pick(n, 1, 48)
+    with sim._no_tracing():
+        hostile = ECHO * n + b'\x99\x00\x00\x00\x00\x02\xab\xcd'
+        conv, tr = run_hostile(6, hostile)
+        ok = robust(6, conv, tr) and aborted(6, conv, tr)
+        ok = ok and len([i for i in tr.indications if i[0] != 'pdu']) == n
+    deep(ok and n == 40)
+    return ok
+
+
 def _hostile_of(cname, args, famv):
     if cname == 'unknown_type':
         n = args['n']
@@ -282,6 +302,8 @@ def _hostile_of(cname, args, famv):
         L = [0, 1, 2, exact, exact + 1, 65536, 0xFFFFFFFF][args['li']]
         body = L.to_bytes(4, 'big') + bytes([args['cid'], args['hdr']]) + args['data']
         return famv['state'], bytes([4, 0]) + len(body).to_bytes(4, 'big') + body
+    if cname == 'pipelined_flood':
+        return 6, ECHO * args['n'] + b'\x99\x00\x00\x00\x00\x02\xab\xcd'
     if cname == 'raw_body':
         d = args['data']
         return NATURAL[famv['kind']], bytes([famv['kind'], args['r']]) + len(d).to_bytes(4, 'big') + d
